@@ -207,6 +207,11 @@ pub fn order_sensitive(f: &mut dyn FnMut(G)) {
         E::Seq(vec![x(), y()]),
         E::Alt(vec![E::Seq(vec![E::lit("s"), x()]), E::Seq(vec![E::lit("d"), y()]), x()]),
         E::Seq(vec![E::Opt(Box::new(y())), E::Many(Box::new(E::Alt(vec![x(), y()])))]),
+        // the same reference twice among the branches
+        E::Alt(vec![x(), y(), x()]),
+        E::Seq(vec![E::Alt(vec![E::lit("start"), x(), E::lit("stop"), x()]), E::lit("now")]),
+        E::Fb(vec![y(), x(), y()]),
+        E::Seq(vec![x(), y(), x()]),
     ];
     for m in &mains {
         for b1 in &bodies {
@@ -347,4 +352,40 @@ pub fn loop_segments(letters: &[&str], maxlen: usize, f: &mut dyn FnMut(G)) {
         }
     }
     rec(&menu, &mut vec![], maxlen, f);
+}
+
+/// Two within-word expressions with the same language where the second repeats an alternative
+/// (`f(A|B)` and `f(A|B|A)`, `f(A|B|B)`, `f((A|B)|A)`, `f(B|A)`): their minimal automata are
+/// equal but are built in a different order, the inputs on which `==` and `Hash` of the
+/// interned automata must agree (F25).
+pub fn redundant_twins(f: &mut dyn FnMut(G)) {
+    let lit = E::lit;
+    let alt = |v: Vec<E>| E::Alt(v);
+    let w = |v: Vec<E>| E::Word(v);
+    let aa: Vec<E> = vec![
+        lit("a"),
+        lit("ax"),
+        w(vec![lit("a"), alt(vec![lit("x"), lit("y")])]),
+        w(vec![lit("a"), E::Opt(Box::new(lit("x")))]),
+        w(vec![alt(vec![lit("a"), lit("c")]), lit("x")]),
+        w(vec![lit("a"), E::cmd("c1")]),
+    ];
+    let bb: Vec<E> = vec![lit("b"), lit("bz"), w(vec![lit("b"), alt(vec![lit("z"), lit("w")])]), w(vec![lit("b"), E::Opt(Box::new(lit("z")))]), w(vec![lit("b"), E::r("U")])];
+    for a in &aa {
+        for b in &bb {
+            let first = w(vec![lit("f"), alt(vec![a.clone(), b.clone()])]);
+            let seconds = vec![
+                alt(vec![a.clone(), b.clone(), a.clone()]),
+                alt(vec![a.clone(), b.clone(), b.clone()]),
+                alt(vec![alt(vec![a.clone(), b.clone()]), a.clone()]),
+                alt(vec![b.clone(), a.clone()]),
+                alt(vec![b.clone(), a.clone(), b.clone()]),
+            ];
+            for s2 in seconds {
+                let second = w(vec![lit("f"), s2]);
+                f(call(E::Seq(vec![first.clone(), second.clone()])));
+                f(call(E::Alt(vec![E::Seq(vec![first.clone(), lit("p")]), E::Seq(vec![second.clone(), lit("q")])])));
+            }
+        }
+    }
 }
